@@ -562,7 +562,14 @@ def direct_scenes(ctx):
             except Exception as e:
                 ctx.hist("scene_program", "generate-failed:" + type(e).__name__)
                 break
-            data = sc.sceneToBytes(scene)
+            try:
+                data = sc.sceneToBytes(scene)
+            except Exception as e:
+                if ctx.violation(f"scene-encode-{type(e).__name__}",
+                                 f"sceneToBytes failed on a generated scene: {type(e).__name__}: {str(e)[:200]} "
+                                 f"(cause: {e.__cause__!r})", {"kind": "scene_encode", "program": code}):
+                    found = True
+                break
             ctx.case(("scene", code, data.hex()))
             ctx.hist("scene_bytes", min(len(data) // 20 * 20, 200))
             rep = {"kind": "scene", "program": code, "data": data.hex()}
@@ -739,6 +746,12 @@ def direct_sims(ctx):
                                               maxIterations=5)
             except NameError:
                 raise
+            except Exception as e:
+                if ctx.violation(f"sim-record-{type(e).__name__}",
+                                 f"simulating with enableReplay failed: {type(e).__name__}: {str(e)[:200]} "
+                                 f"(cause: {e.__cause__!r})", dict(rep)):
+                    found = True
+                break
             if sim is None:
                 ctx.hist("sim_program", "rejected")
                 continue
@@ -836,11 +849,13 @@ def run(ctx):
         table = intcodec.extract()
         ctx.gen("IntCodec", intcodec.to_lean(table))
     except TemplateMismatch as e:
+        ctx.gen_restore("IntCodec")
         ctx.escalated.append(f"translator tie lost (intcodec): {e}")
         ctx.notes.append(f"translator tie lost for writeInt/readInt: {e}; relying on correspondence at thorough budget")
     try:
         ctx.gen("Divergence", divergence.to_lean(divergence.extract()))
     except TemplateMismatch as e:
+        ctx.gen_restore("Divergence")
         ctx.escalated.append(f"translator tie lost (divergence): {e}")
         ctx.notes.append(f"translator tie lost for valuesHaveDiverged: {e}")
     pr = ctx.prove(THEOREMS, side_conditions=SIDE)
